@@ -485,6 +485,63 @@ type hop struct {
 	isMap bool
 }
 
+// cyclePaths returns one cycle md -> ... -> md per message-typed field of md
+// that lies on a cycle (the cycle starts with that field), so that every
+// decode site of a recursive type is the repeating hop of some deep chain.
+func cyclePaths(md protoreflect.MessageDescriptor) [][]hop {
+	var out [][]hop
+	fds := md.Fields()
+	for i := 0; i < fds.Len(); i++ {
+		fd := fds.Get(i)
+		to := fd.Message()
+		isMap := fd.IsMap()
+		if isMap {
+			to = fd.MapValue().Message()
+		}
+		if to == nil {
+			continue
+		}
+		first := hop{fd.Number(), isMap}
+		if to.FullName() == md.FullName() {
+			out = append(out, []hop{first})
+			continue
+		}
+		// shortest way back from `to` to md
+		type node struct {
+			md   protoreflect.MessageDescriptor
+			path []hop
+		}
+		seen := map[protoreflect.FullName]bool{to.FullName(): true}
+		queue := []node{{to, []hop{first}}}
+		found := false
+		for len(queue) > 0 && !found {
+			cur := queue[0]
+			queue = queue[1:]
+			cf := cur.md.Fields()
+			for j := 0; j < cf.Len() && !found; j++ {
+				f2 := cf.Get(j)
+				t2 := f2.Message()
+				m2 := f2.IsMap()
+				if m2 {
+					t2 = f2.MapValue().Message()
+				}
+				if t2 == nil {
+					continue
+				}
+				p := append(append([]hop{}, cur.path...), hop{f2.Number(), m2})
+				if t2.FullName() == md.FullName() {
+					out = append(out, p)
+					found = true
+				} else if !seen[t2.FullName()] {
+					seen[t2.FullName()] = true
+					queue = append(queue, node{t2, p})
+				}
+			}
+		}
+	}
+	return out
+}
+
 func cyclePath(md protoreflect.MessageDescriptor) []hop {
 	type node struct {
 		md   protoreflect.MessageDescriptor
@@ -553,6 +610,7 @@ type depthCase struct {
 	Limit  int    `json:"limit"`
 	Hops   []int  `json:"hops,omitempty"` // explicit walk (field numbers) instead of the cyclic path
 	Width  int    `json:"width,omitempty"` // > 1: that many records per level (empty siblings before the nested one)
+	Cycle  int    `json:"cycle,omitempty"` // > 0: use the (Cycle-1)-th cycle of cyclePaths instead of the first one found
 	Alloc  int    `json:"alloc,omitempty"` // > 0: allocation growth between Levels and 2*Levels with an unknown record per level (1 varint before, 2 varint after, 3 bytes before, 4 bytes after the child)
 }
 
@@ -653,6 +711,12 @@ func runDepthArm(ctx *Ctx) {
 		for a := 1; a <= 4; a++ {
 			cases = append(cases, depthCase{Type: string(t.Name), Levels: 1500, Alloc: a})
 		}
+		// every cycle of the type (one per message-typed field on a cycle), 60 levels
+		// with TWO records of the field at every level: work that is redone per
+		// occurrence multiplies per level and never finishes
+		for ci := range cyclePaths(t.Desc) {
+			cases = append(cases, depthCase{Type: string(t.Name), Levels: 60, Width: 2, Cycle: ci + 1})
+		}
 		for _, d := range []int{9990, 9998, 9999, 10000, 10001, 10010} {
 			cases = append(cases, depthCase{Type: string(t.Name), Levels: d, Limit: 0})
 		}
@@ -691,7 +755,7 @@ func runDepthArm(ctx *Ctx) {
 			var dc depthCase
 			parts := strings.SplitN(strings.TrimPrefix(ln, "DEPTH-BAD "), " :: ", 2)
 			_ = json.Unmarshal([]byte(parts[0]), &dc)
-			ctx.Violation(&Case{Sub: "depth", Type: dc.Type, Args: map[string]string{"levels": strconv.Itoa(dc.Levels), "limit": strconv.Itoa(dc.Limit), "hops": hopsStr(dc.Hops), "width": strconv.Itoa(dc.Width), "alloc": strconv.Itoa(dc.Alloc)}}, parts[1])
+			ctx.Violation(&Case{Sub: "depth", Type: dc.Type, Args: map[string]string{"levels": strconv.Itoa(dc.Levels), "limit": strconv.Itoa(dc.Limit), "hops": hopsStr(dc.Hops), "width": strconv.Itoa(dc.Width), "alloc": strconv.Itoa(dc.Alloc), "cycle": strconv.Itoa(dc.Cycle)}}, parts[1])
 			ctx.T.Fail()
 			current = ""
 		case ln == "DEPTH-DONE":
@@ -702,7 +766,7 @@ func runDepthArm(ctx *Ctx) {
 		// the child died: the case it announced last is the witness
 		var dc depthCase
 		if current != "" && json.Unmarshal([]byte(current), &dc) == nil {
-			ctx.Violation(&Case{Sub: "depth", Type: dc.Type, Args: map[string]string{"levels": strconv.Itoa(dc.Levels), "limit": strconv.Itoa(dc.Limit), "hops": hopsStr(dc.Hops), "width": strconv.Itoa(dc.Width), "alloc": strconv.Itoa(dc.Alloc)}},
+			ctx.Violation(&Case{Sub: "depth", Type: dc.Type, Args: map[string]string{"levels": strconv.Itoa(dc.Levels), "limit": strconv.Itoa(dc.Limit), "hops": hopsStr(dc.Hops), "width": strconv.Itoa(dc.Width), "alloc": strconv.Itoa(dc.Alloc), "cycle": strconv.Itoa(dc.Cycle)}},
 				fmt.Sprintf("child process died while decoding nesting depth %d with RecursionLimit %d (err=%v): %s", dc.Levels, dc.Limit, err, trunc(tailStr(out.String(), 600), 600)))
 			ctx.T.Fail()
 		} else {
@@ -734,7 +798,7 @@ func depthChild() {
 		if err != nil {
 			fmt.Printf("DEPTH-BAD %s :: %s\n", js, strings.ReplaceAll(err.Error(), "\n", " | "))
 		} else {
-			fmt.Printf("DEPTH-OK %s %d/%s/w%d/a%d %d %s\n", dc.Type, dc.Levels, hopsStr(dc.Hops), dc.Width, dc.Alloc, dc.Limit, verdict)
+			fmt.Printf("DEPTH-OK %s %d/%s/w%d/a%d/c%d %d %s\n", dc.Type, dc.Levels, hopsStr(dc.Hops), dc.Width, dc.Alloc, dc.Cycle, dc.Limit, verdict)
 		}
 	}
 	fmt.Println("DEPTH-DONE")
@@ -818,6 +882,13 @@ func checkDepth(dc depthCase) (string, error) {
 		dc.Levels = len(dc.Hops)
 	} else {
 		path := cyclePath(t.Desc)
+		if dc.Cycle > 0 {
+			if cs := cyclePaths(t.Desc); dc.Cycle <= len(cs) {
+				path = cs[dc.Cycle-1]
+			} else {
+				return "", fmt.Errorf("HARNESS: %s has no cycle #%d", dc.Type, dc.Cycle)
+			}
+		}
 		if path == nil {
 			return "not-recursive", nil
 		}
@@ -852,7 +923,7 @@ func checkDepth(dc depthCase) (string, error) {
 func replayC06(ctx *Ctx, c *Case) error {
 	switch c.Sub {
 	case "depth":
-		_, err := checkDepth(depthCase{Type: c.Type, Levels: c.argInt("levels"), Limit: c.argInt("limit"), Hops: parseHops(c.arg("hops")), Width: c.argInt("width"), Alloc: c.argInt("alloc")})
+		_, err := checkDepth(depthCase{Type: c.Type, Levels: c.argInt("levels"), Limit: c.argInt("limit"), Hops: parseHops(c.arg("hops")), Width: c.argInt("width"), Alloc: c.argInt("alloc"), Cycle: c.argInt("cycle")})
 		return err
 	case "fuzz":
 		return fuzzOne(ctx, unhex(c.Bytes))
